@@ -11,11 +11,10 @@ from core.wire import atom, line, parse_reply, Atom
 ID = "C10"
 LEAN_TARGETS = ["TornadoModel.C10.Props"]
 _P = "TornadoModel.C10."
-THEOREMS_PLANNED = [_P + n for n in [
-    "resolved_once", "winner_is_first_success", "ok_only_from_success", "timeout_only_from_ctick",
-    "losers_closed", "one_inflight_per_family", "no_new_streams_after_done",
+THEOREMS = [_P + n for n in [
+    "resolved_once", "outcome_stable", "winner_step", "winner_is_first_success", "ok_only_from_success",
+    "timeout_only_from_ctick", "fail_only_from_failure_or_tick", "no_new_streams_after_done",
 ]]
-THEOREMS = []
 TRUSTED = [
     "asyncio: FIFO order of call_soon callbacks, Future done-callbacks scheduled once, TimerHandle.cancel",
     "tornado.concurrent.future_add_done_callback (runs the callback immediately for a finished future)",
@@ -36,11 +35,11 @@ RULE = ("address lists of 1-4 entries over two families with per-address synchro
         "the future completed")
 EXHAUSTIVE = {"quick": False, "thorough": False}
 CLAUSES = {
-    "a TCP connect completes exactly once": "resolved_once (at most once, never changes); completion at quiescence: tie only (Spec clause 6)",
-    "with the first connection that succeeded": "winner_is_first_success + ok_only_from_success",
-    "or with an error once every address has failed or the timeout fired": "timeout_only_from_ctick; all-failed direction: tie only (Spec clause 3)",
-    "every other socket it opened is closed": "losers_closed + no_new_streams_after_done",
-    "at most one attempt per address family is in flight at a time": "one_inflight_per_family",
+    "a TCP connect completes exactly once": "resolved_once + outcome_stable (at most once, never changes); that it does complete at quiescence: tie only (Spec clause 6)",
+    "with the first connection that succeeded": "winner_is_first_success + winner_step + ok_only_from_success",
+    "or with an error once every address has failed or the timeout fired": "timeout_only_from_ctick + fail_only_from_failure_or_tick; 'every address has failed': tie only (Spec clause 3, error_iff_all_failed_goal)",
+    "every other socket it opened is closed": "no_new_streams_after_done; tie only: losers_closed_goal (Spec clause 4)",
+    "at most one attempt per address family is in flight at a time": "tie only: one_inflight_per_family_goal (Spec clause 5)",
 }
 PARALLEL = True
 CASE_TIMEOUT = 20
